@@ -144,7 +144,7 @@ pub struct Edit {
     val: u32,
 }
 
-fn edit() -> impl Strategy<Value = Edit> {
+pub fn edit() -> impl Strategy<Value = Edit> {
     (0u8..8, any::<u16>(), 1u8..6, 0u32..64).prop_map(|(kind, at, len, val)| Edit { kind, at, len, val })
 }
 
@@ -224,12 +224,12 @@ pub fn apply_edits(old: &[u32], edits: &[Edit], k: u32) -> Vec<u32> {
     v
 }
 
-fn alphabet() -> impl Strategy<Value = u32> {
+pub fn alphabet() -> impl Strategy<Value = u32> {
     prop_oneof![Just(1u32), Just(2), Just(2), Just(3), Just(3), Just(4), Just(8), Just(64)]
 }
 
 /// basic (old,new) pair with lengths up to `max_len`
-fn base_pair(max_len: usize) -> BoxedStrategy<(Vec<u32>, Vec<u32>)> {
+pub fn base_pair(max_len: usize) -> BoxedStrategy<(Vec<u32>, Vec<u32>)> {
     let l = max_len;
     prop_oneof![
         // independent over a small alphabet
@@ -262,7 +262,7 @@ fn dedup(v: Vec<u32>) -> Vec<u32> {
 }
 
 /// adds unique markers (values >= 1000) to both sides at independent positions
-fn with_markers(base: BoxedStrategy<(Vec<u32>, Vec<u32>)>) -> BoxedStrategy<(Vec<u32>, Vec<u32>)> {
+pub fn with_markers(base: BoxedStrategy<(Vec<u32>, Vec<u32>)>) -> BoxedStrategy<(Vec<u32>, Vec<u32>)> {
     (base, vec((any::<u16>(), any::<u16>(), 0u8..8), 0..=8))
         .prop_map(|((mut a, mut b), ms)| {
             for (i, (pa, pb, fl)) in ms.iter().enumerate() {
@@ -285,7 +285,7 @@ fn with_markers(base: BoxedStrategy<(Vec<u32>, Vec<u32>)>) -> BoxedStrategy<(Vec
         .boxed()
 }
 
-fn with_affixes(base: BoxedStrategy<(Vec<u32>, Vec<u32>)>) -> BoxedStrategy<(Vec<u32>, Vec<u32>)> {
+pub fn with_affixes(base: BoxedStrategy<(Vec<u32>, Vec<u32>)>) -> BoxedStrategy<(Vec<u32>, Vec<u32>)> {
     (base, vec(0u32..3, 0..=4), vec(0u32..3, 0..=4))
         .prop_map(|((a, b), pre, suf)| {
             let mut o = pre.clone();
@@ -587,6 +587,16 @@ pub fn line_text_pair(max_lines: usize, invalid: bool) -> BoxedStrategy<(BStr, B
                         (BStr(render_lines(&a, fa)), BStr(render_lines(&b, fb)))
                     }),
             ]
+        })
+        .boxed()
+}
+
+/// (old, new) line texts with between `min` and `max` lines on the old side, new = mutate(old)
+pub fn line_text_pair_sized(min: usize, max: usize, invalid: bool) -> BoxedStrategy<(BStr, BStr)> {
+    (vec(line(invalid), min..=max), vec(ledit(invalid), 0..=6), prop_oneof![3 => Just(true), 1 => Just(false)], prop_oneof![3 => Just(true), 1 => Just(false)])
+        .prop_map(|(a, es, fa, fb)| {
+            let b = apply_ledits(&a, &es);
+            (BStr(render_lines(&a, fa)), BStr(render_lines(&b, fb)))
         })
         .boxed()
 }
